@@ -103,6 +103,7 @@ structure RespIn where
   keepAlive : Bool := true             -- r->keep_alive > 0
   hasHandler : Bool := true            -- r->handler_module != NULL
   errorIntercept : Bool := false
+  ehSaved : Nat := 0                   -- r->error_handler_saved_status (0, a status, or the 65535 flag)
   kaReqExceeded : Bool := false        -- con->request_count > max_keep_alive_requests
   kaIdleZero : Bool := false           -- max_keep_alive_idle == 0
   reqBodyUnread : Bool := false        -- request body not completely read (and not streamed)
@@ -142,8 +143,10 @@ def bodyClear (st : RespSt) (preserveLength : Bool) : RespSt :=
   let hs := if preserveLength then hs else Hdrs.unset hs nContentLength
   { st with hdrs := hs, body := [], finished := false, sendChunked := false }
 
-/-- does http_response_static_errdoc() replace the response? (no error handler configured) -/
-def errdocApplies (d : RespIn) : Bool := !d.hasHandler || d.errorIntercept
+/-- does http_response_static_errdoc() replace the response?  It returns early if
+    `NULL == handler_module ? saved_status >= 65535 : (!error_intercept || saved_status)` -/
+def errdocApplies (d : RespIn) : Bool :=
+  if !d.hasHandler then !(decide (d.ehSaved ≥ 65535)) else d.errorIntercept && d.ehSaved = 0
 
 /-- http_response_static_errdoc(): http_response_errdoc_init() keeps only WWW-Authenticate of a 401 -/
 def staticErrdoc (d : RespIn) (st : RespSt) : RespSt :=
